@@ -980,7 +980,7 @@ func instCause(t *gty, v reflect.Value, viaWrap bool, underPtr bool) string {
 			return "uint64-overflow"
 		}
 	case "float":
-		if math.IsInf(v.Float(), 0) {
+		if math.IsInf(v.Float(), 0) && t.w == 32 { // float64: the default Float has no bounds (repaired, /repo b380d5a)
 			return "float-inf-rejected"
 		}
 	case "slice":
